@@ -101,6 +101,12 @@ CLAIMED["C11"] = {
     "note": "Within node budgets; f-strings and constants are not part of the TLA+ mirror (source tokens stand for constants there) and are covered by the round trip only; known finding F-C11-1 (f-string renderer escapes expression parts).",
     "technique": "TLA+ mirror of the unparser's precedence machine checked by TLC against the generative grammar's need-parentheses rendering (alignment invariant); TLC-generated trees replayed: unparser tokens vs mirror, parse(unparse(t)) = t, fixed point",
 }
+CLAIMED["C12"] = {
+    "text": "Traversal.tla is the depth-first walk of a tree given as a node table (kind, category, range-carrying or not, children in declaration order, read from the tree's derive(Debug) output independently of Fold/Visitor). The harness records, through the public traits only, every will_map_user/map_user callback of an identity folder and every visit_stmt/visit_expr/visit_pattern/visit_excepthandler call of the default Visitor; TLC validates the recorded callbacks of every program against the walk: one enter and one exit per range-carrying node with the context it produced, one visit per statement/expression/pattern/handler, parents first, children in order - a dropped, duplicated, reordered or foreign callback leaves an event unmatched. Folding with the identity must give an equal tree and folding +1000 then -1000 the original (default and all-nodes-with-ranges builds). Optimizer.tla builds every statement over constants, names, tuples and lists (targets included) within a budget and TLC checks Idempotent, Lossless (unfolding the tuple constants gives the input back) and Maximal; every such statement is run through the real ConstantOptimizer and compared with Opt; on all other programs the optimised tree must equal the generic rewriting and optimising twice must change nothing. Programs: nine PyGen.tla sub-languages, curated snippets, corpus files; all 80 node kinds must occur.",
+    "design_ref": "DESIGN.md section 6 C12",
+    "note": "Callbacks are matched by range (fold) / category and range (visitor): two distinct nodes with equal range and category are interchangeable for the walk; quick tier strides the generated programs (700 per sub-language).",
+    "technique": "TLC trace validation of recorded Fold/Visitor callbacks against a TLA+ depth-first walk of the tree's node table; TLA+ rewriting model of the constant-tuple optimiser model-checked (idempotent, lossless, maximal) and replayed into the real optimiser",
+}
 NOT_YET = {}
 
 def main():
